@@ -11,20 +11,26 @@ import (
 )
 
 type Expr struct {
-	Kind string // lit, var, add, mul
+	Kind string // lit, var, add, mul, call
 	Lit  uint64
 	Var  int
 	L, R *Expr
+	Fn   int     // call: index of the callee in Program.Funcs
+	Args []*Expr // call: one per parameter
 }
 
 type Stmt struct {
-	Kind string // assign, inc, dec, if, write, shadow (a bare block that re-declares variable Var and runs Then)
+	Kind string // assign, inc, dec, if, write, shadow (a bare block that re-declares variable Var and runs Then), for, break, continue
 	Var  int
 	Out  int
 	E    *Expr
-	A, B *Expr // if A == B
+	A, B *Expr // if A == B ; for: condition A == B (nil: none)
 	Then []Stmt
 	Else []Stmt
+	// for: `for Var = E; A == B; Var<Post> { Then }`; E nil: no init clause, Post "": no post statement
+	Post string
+	// rpc: send E to the first worker of chain Chain, receive the answer of its last worker into Var
+	Chain int
 }
 
 type Var struct {
@@ -32,20 +38,58 @@ type Var struct {
 	Reg  bool
 }
 
+// Func is a function of the program: NParams register-sized parameters, the
+// remaining Vars are locals; the body ends with the only `return Ret`.
+type Func struct {
+	Name    string
+	NParams int
+	Vars    []Var
+	Body    []Stmt
+	Ret     *Expr
+}
+
+// Worker is a function started with `go` on a processor of its own: an endless loop that receives a value
+// from its input channel into Vars[0], runs Body and sends Out on its output channel. Vars[1..NVal] are
+// by-value parameters (initialised from the literals Vals at the go statement), the rest are locals
+// declared in front of the loop (they keep their value from one round to the next).
+type Worker struct {
+	Name string
+	Vars []Var
+	NVal int
+	Vals []uint64
+	Body []Stmt
+	Out  *Expr
+}
+
 type Program struct {
 	Rsize   int
 	Outputs []int // global index given to bondgo.Make, per local output
 	Vars    []Var
+	Funcs   []Func
+	Workers []Worker
+	Chains  [][]int // each chain lists worker indices: main -> w -> w ... -> main over unbuffered channels
+	// ChanDeclRev: main declares its channel variables in the reverse of the order it hands them to the workers
+	ChanDeclRev bool
 	Init    []Stmt
 	Loop    []Stmt
 	UsesEq  bool
+	// features present (for counters and signatures)
+	HasFor, HasBreak, HasContinue, HasCall, HasShadow bool
+	HasGo, HasGoValArgs, HasChanBlock                 bool
 }
 
 type gen struct {
-	t      *simrt.Tape
-	p      *Program
-	shadow bool
-	nest   int
+	t       *simrt.Tape
+	p       *Program
+	shadow  bool
+	withFor bool
+	nest    int
+	// current context
+	vars   []Var
+	nout   int // outputs writable here (0 inside functions)
+	ncall  int // functions 0..ncall-1 may be called here
+	budget int // calls left in this program (inlining multiplies code size)
+	nchain int // worker chains reachable here (main only)
 }
 
 // expr draws an expression. bondgo has no parenthesised expressions, so only
@@ -62,11 +106,21 @@ func (g *gen) exprK(depth int, allowAdd bool) *Expr {
 	if k == 2 && !allowAdd {
 		k = 3
 	}
+	if g.ncall > 0 && g.budget > 0 && depth > 0 && g.t.Draw(4) == 1 {
+		g.budget--
+		f := g.t.Draw(g.ncall)
+		e := &Expr{Kind: "call", Fn: f}
+		for i := 0; i < g.p.Funcs[f].NParams; i++ {
+			e.Args = append(e.Args, g.exprK(depth-1, true))
+		}
+		g.p.HasCall = true
+		return e
+	}
 	switch k {
 	case 0:
 		return &Expr{Kind: "lit", Lit: uint64(g.t.Draw(200))}
 	case 1:
-		return &Expr{Kind: "var", Var: g.t.Draw(len(g.p.Vars))}
+		return &Expr{Kind: "var", Var: g.t.Draw(len(g.vars))}
 	case 2:
 		return &Expr{Kind: "add", L: g.exprK(depth-1, true), R: g.exprK(depth-1, true)}
 	default:
@@ -74,23 +128,79 @@ func (g *gen) exprK(depth int, allowAdd bool) *Expr {
 	}
 }
 
+func (g *gen) forStmt(depth int) Stmt {
+	s := Stmt{Kind: "for", Var: g.t.Draw(len(g.vars))}
+	g.p.HasFor = true
+	g.p.UsesEq = true
+	shape := g.t.Draw(4)
+	// 0: for v = E; ; v++ { ...; if v == lit { break } }   1: for v = E; v == X; v++ {...}
+	// 2: for { ... if ... { break } }                        3: for ; A == B; { ... } with a post-less header
+	switch shape {
+	case 0, 1:
+		s.E = g.expr(1)
+		s.Post = []string{"inc", "dec"}[g.t.Draw(2)]
+	case 3:
+		if g.t.Draw(2) == 1 {
+			s.Post = []string{"inc", "dec"}[g.t.Draw(2)]
+		}
+	}
+	if shape == 1 || shape == 3 {
+		s.A = &Expr{Kind: "var", Var: s.Var}
+		if g.t.Draw(2) == 1 {
+			s.A = g.expr(0)
+		}
+		s.B = g.expr(1)
+	}
+	g.nest++
+	s.Then = g.stmts(1+g.t.Draw(3), depth-1, true)
+	g.nest--
+	if shape == 0 || shape == 2 {
+		// the exit: `if v == <small distance away> { break }` somewhere in the body
+		br := Stmt{Kind: "if", A: &Expr{Kind: "var", Var: s.Var}, B: &Expr{Kind: "lit", Lit: uint64(g.t.Draw(6))}, Then: []Stmt{{Kind: "break"}}}
+		if g.t.Draw(3) == 1 {
+			br.B = g.expr(1)
+		}
+		g.p.HasBreak = true
+		at := g.t.Draw(len(s.Then) + 1)
+		s.Then = append(s.Then[:at:at], append([]Stmt{br}, s.Then[at:]...)...)
+		if shape == 2 {
+			// something must move towards the exit
+			s.Then = append(s.Then, Stmt{Kind: []string{"inc", "dec"}[g.t.Draw(2)], Var: s.Var})
+		}
+	}
+	return s
+}
+
 func (g *gen) stmts(n, depth int, inLoop bool) []Stmt {
 	var out []Stmt
 	for i := 0; i < n; i++ {
+		if g.nchain > 0 && g.t.Draw(4) == 1 {
+			if g.nest < 2 && g.t.Draw(5) == 1 {
+				// a block with a channel variable of its own (released where the block ends)
+				g.nest++
+				out = append(out, Stmt{Kind: "chanblock", Then: g.stmts(g.t.Draw(3), depth-1, inLoop)})
+				g.nest--
+				g.p.HasChanBlock = true
+				continue
+			}
+			out = append(out, Stmt{Kind: "rpc", Chain: g.t.Draw(g.nchain), E: g.expr(1), Var: g.t.Draw(len(g.vars))})
+			continue
+		}
 		k := g.t.Draw(8)
 		switch {
 		case k <= 2:
-			out = append(out, Stmt{Kind: "assign", Var: g.t.Draw(len(g.p.Vars)), E: g.expr(2)})
+			out = append(out, Stmt{Kind: "assign", Var: g.t.Draw(len(g.vars)), E: g.expr(2)})
 		case k == 3:
-			out = append(out, Stmt{Kind: "inc", Var: g.t.Draw(len(g.p.Vars))})
+			out = append(out, Stmt{Kind: "inc", Var: g.t.Draw(len(g.vars))})
 		case k == 4:
-			out = append(out, Stmt{Kind: "dec", Var: g.t.Draw(len(g.p.Vars))})
+			out = append(out, Stmt{Kind: "dec", Var: g.t.Draw(len(g.vars))})
 		case k == 6 && g.shadow && depth >= 0 && g.nest < 2:
 			// a nested block that declares a variable with the name of an outer one (legal Go shadowing)
 			g.nest++
-			s := Stmt{Kind: "shadow", Var: g.t.Draw(len(g.p.Vars))}
+			s := Stmt{Kind: "shadow", Var: g.t.Draw(len(g.vars))}
 			s.Then = g.stmts(1+g.t.Draw(3), depth-1, inLoop)
 			g.nest--
+			g.p.HasShadow = true
 			out = append(out, s)
 		case k == 5 && depth > 0:
 			s := Stmt{Kind: "if", A: g.expr(1), B: g.expr(1)}
@@ -100,8 +210,24 @@ func (g *gen) stmts(n, depth int, inLoop bool) []Stmt {
 			}
 			g.p.UsesEq = true
 			out = append(out, s)
+		case k == 7 && g.withFor && depth > 0 && g.nest < 2:
+			out = append(out, g.forStmt(depth))
+		case k == 6 && g.withFor && g.nest > 0 && inLoop && depth >= 0:
+			// break / continue of the innermost generated `for` (never of the program's outer loop:
+			// leaving it would end the program)
+			if g.t.Draw(2) == 0 {
+				g.p.HasBreak = true
+				out = append(out, Stmt{Kind: "break"})
+			} else {
+				g.p.HasContinue = true
+				out = append(out, Stmt{Kind: "continue"})
+			}
 		default:
-			out = append(out, Stmt{Kind: "write", Out: g.t.Draw(len(g.p.Outputs)), E: g.expr(2)})
+			if g.nout == 0 {
+				out = append(out, Stmt{Kind: "assign", Var: g.t.Draw(len(g.vars)), E: g.expr(1)})
+			} else {
+				out = append(out, Stmt{Kind: "write", Out: g.t.Draw(g.nout), E: g.expr(2)})
+			}
 		}
 	}
 	return out
@@ -118,7 +244,7 @@ func Generate(t *simrt.Tape) *Program {
 	// mode 0: register variables only and no conditionals, the subset whose
 	// lowering (rset clr cpy add mult inc dec r2o j) the repository's ISA
 	// simulator implements, so the semantic oracle applies; mode 1: anything.
-	free := t.Draw(2) == 1
+	free := t.Draw(3) != 0
 	nv := 1 + t.Draw(4)
 	for i := 0; i < nv; i++ {
 		v := Var{Name: fmt.Sprintf("v%d", i), Reg: !free || t.Draw(3) == 1}
@@ -129,13 +255,85 @@ func Generate(t *simrt.Tape) *Program {
 	}
 	g := &gen{t: t, p: p}
 	g.shadow = t.Draw(3) == 1
-	withIf := free && t.Draw(2) == 1
+	withIf := free && t.Draw(3) != 0
 	depth := 0
 	if withIf {
 		depth = 2
 	}
+	// control flow beyond if: inner for loops with break/continue (they need `==`)
+	g.withFor = withIf && t.Draw(3) != 0
+	// functions (inlined by the compiler), callable from expressions
+	nf := 0
+	if t.Draw(3) == 1 {
+		nf = 1 + t.Draw(2)
+	}
+	g.budget = 3
+	for f := 0; f < nf; f++ {
+		fn := Func{Name: fmt.Sprintf("f%d", f), NParams: 1 + t.Draw(2)}
+		for i := 0; i < fn.NParams; i++ {
+			fn.Vars = append(fn.Vars, Var{Name: fmt.Sprintf("reg_p%d", i), Reg: true})
+		}
+		nl := t.Draw(3)
+		for i := 0; i < nl; i++ {
+			v := Var{Name: fmt.Sprintf("t%d", i), Reg: !free || t.Draw(2) == 1}
+			if v.Reg {
+				v.Name = "reg_" + v.Name
+			}
+			fn.Vars = append(fn.Vars, v)
+		}
+		g.vars, g.nout, g.ncall = fn.Vars, 0, f
+		fn.Body = g.stmts(t.Draw(4), depth, false)
+		fn.Ret = g.expr(2)
+		p.Funcs = append(p.Funcs, fn)
+	}
+	// goroutines: workers on processors of their own, connected in chains by channels
+	nw := 0
+	if t.Draw(3) == 1 {
+		nw = 1 + t.Draw(3)
+	}
+	for w := 0; w < nw; w++ {
+		wk := Worker{Name: fmt.Sprintf("w%d", w)}
+		wk.Vars = append(wk.Vars, Var{Name: "reg_x", Reg: true})
+		if free && t.Draw(2) == 1 {
+			wk.Vars[0] = Var{Name: "x"}
+		}
+		if t.Draw(3) == 1 {
+			wk.NVal = 1 + t.Draw(2)
+			p.HasGoValArgs = true
+		}
+		for i := 0; i < wk.NVal; i++ {
+			wk.Vars = append(wk.Vars, Var{Name: fmt.Sprintf("reg_k%d", i), Reg: true})
+			wk.Vals = append(wk.Vals, uint64(1+t.Draw(9)))
+		}
+		nl := t.Draw(3)
+		for i := 0; i < nl; i++ {
+			v := Var{Name: fmt.Sprintf("s%d", i), Reg: !free || t.Draw(2) == 1}
+			if v.Reg {
+				v.Name = "reg_" + v.Name
+			}
+			wk.Vars = append(wk.Vars, v)
+		}
+		g.vars, g.nout, g.ncall = wk.Vars, 0, nf
+		wk.Body = g.stmts(t.Draw(4), depth, false)
+		wk.Out = g.expr(2)
+		p.Workers = append(p.Workers, wk)
+		p.HasGo = true
+		if w == 0 || t.Draw(2) == 1 {
+			p.Chains = append(p.Chains, []int{w})
+		} else {
+			p.Chains[len(p.Chains)-1] = append(p.Chains[len(p.Chains)-1], w)
+		}
+	}
+	if nw > 0 && t.Draw(3) == 1 {
+		p.ChanDeclRev = true
+	}
+	g.vars, g.nout, g.ncall, g.nchain = p.Vars, len(p.Outputs), nf, len(p.Chains)
 	p.Init = g.stmts(t.Draw(4), depth, false)
-	p.Loop = g.stmts(1+t.Draw(5), depth, true)
+	p.Loop = g.stmts(1+t.Draw(5), depth, false)
+	// every chain is exercised
+	for c := range p.Chains {
+		p.Loop = append(p.Loop, Stmt{Kind: "rpc", Chain: c, E: &Expr{Kind: "var", Var: 0}, Var: t.Draw(len(p.Vars))})
+	}
 	// make sure the loop writes something
 	p.Loop = append(p.Loop, Stmt{Kind: "write", Out: 0, E: &Expr{Kind: "var", Var: 0}})
 	return p
@@ -143,41 +341,81 @@ func Generate(t *simrt.Tape) *Program {
 
 func (p *Program) typ() string { return fmt.Sprintf("uint%d", p.Rsize) }
 
-func (p *Program) exprSrc(e *Expr) string {
+func (p *Program) exprSrc(vars []Var, e *Expr) string {
 	switch e.Kind {
 	case "lit":
 		return fmt.Sprint(e.Lit)
 	case "var":
-		return p.Vars[e.Var].Name
+		return vars[e.Var].Name
 	case "add":
-		return p.exprSrc(e.L) + " + " + p.exprSrc(e.R)
+		return p.exprSrc(vars, e.L) + " + " + p.exprSrc(vars, e.R)
+	case "call":
+		var a []string
+		for _, x := range e.Args {
+			a = append(a, p.exprSrc(vars, x))
+		}
+		return p.Funcs[e.Fn].Name + "(" + strings.Join(a, ", ") + ")"
 	default:
-		return p.exprSrc(e.L) + " * " + p.exprSrc(e.R)
+		return p.exprSrc(vars, e.L) + " * " + p.exprSrc(vars, e.R)
 	}
 }
 
-func (p *Program) stmtsSrc(b *strings.Builder, ss []Stmt, ind string) {
+func (p *Program) stmtsSrc(b *strings.Builder, vars []Var, ss []Stmt, ind string) {
 	for _, s := range ss {
 		switch s.Kind {
 		case "assign":
-			fmt.Fprintf(b, "%s%s = %s\n", ind, p.Vars[s.Var].Name, p.exprSrc(s.E))
+			fmt.Fprintf(b, "%s%s = %s\n", ind, vars[s.Var].Name, p.exprSrc(vars, s.E))
 		case "inc":
-			fmt.Fprintf(b, "%s%s++\n", ind, p.Vars[s.Var].Name)
+			fmt.Fprintf(b, "%s%s++\n", ind, vars[s.Var].Name)
 		case "dec":
-			fmt.Fprintf(b, "%s%s--\n", ind, p.Vars[s.Var].Name)
+			fmt.Fprintf(b, "%s%s--\n", ind, vars[s.Var].Name)
 		case "write":
-			fmt.Fprintf(b, "%sbondgo.IOWrite(out%d, %s)\n", ind, s.Out, p.exprSrc(s.E))
+			fmt.Fprintf(b, "%sbondgo.IOWrite(out%d, %s)\n", ind, s.Out, p.exprSrc(vars, s.E))
+		case "rpc":
+			ch := p.Chains[s.Chain]
+			fmt.Fprintf(b, "%sc%d_0 <- %s\n", ind, s.Chain, p.exprSrc(vars, s.E))
+			fmt.Fprintf(b, "%s%s = <-c%d_%d\n", ind, vars[s.Var].Name, s.Chain, len(ch))
+		case "break":
+			fmt.Fprintf(b, "%sbreak\n", ind)
+		case "continue":
+			fmt.Fprintf(b, "%scontinue\n", ind)
+		case "chanblock":
+			fmt.Fprintf(b, "%s{\n%s\tvar tc chan %s\n", ind, ind, p.typ())
+			p.stmtsSrc(b, vars, s.Then, ind+"\t")
+			fmt.Fprintf(b, "%s}\n", ind)
 		case "shadow":
-			fmt.Fprintf(b, "%s{\n%s\tvar %s %s\n", ind, ind, p.Vars[s.Var].Name, p.typ())
-			p.stmtsSrc(b, s.Then, ind+"\t")
+			fmt.Fprintf(b, "%s{\n%s\tvar %s %s\n", ind, ind, vars[s.Var].Name, p.typ())
+			p.stmtsSrc(b, vars, s.Then, ind+"\t")
 			fmt.Fprintf(b, "%s}\n", ind)
 		case "if":
-			fmt.Fprintf(b, "%sif %s == %s {\n", ind, p.exprSrc(s.A), p.exprSrc(s.B))
-			p.stmtsSrc(b, s.Then, ind+"\t")
+			fmt.Fprintf(b, "%sif %s == %s {\n", ind, p.exprSrc(vars, s.A), p.exprSrc(vars, s.B))
+			p.stmtsSrc(b, vars, s.Then, ind+"\t")
 			if s.Else != nil {
 				fmt.Fprintf(b, "%s} else {\n", ind)
-				p.stmtsSrc(b, s.Else, ind+"\t")
+				p.stmtsSrc(b, vars, s.Else, ind+"\t")
 			}
+			fmt.Fprintf(b, "%s}\n", ind)
+		case "for":
+			hdr := ""
+			if s.E != nil || s.A != nil || s.Post != "" {
+				if s.E != nil {
+					hdr = fmt.Sprintf("%s = %s", vars[s.Var].Name, p.exprSrc(vars, s.E))
+				}
+				hdr += ";"
+				if s.A != nil {
+					hdr += fmt.Sprintf(" %s == %s", p.exprSrc(vars, s.A), p.exprSrc(vars, s.B))
+				}
+				hdr += ";"
+				switch s.Post {
+				case "inc":
+					hdr += " " + vars[s.Var].Name + "++"
+				case "dec":
+					hdr += " " + vars[s.Var].Name + "--"
+				}
+				hdr += " "
+			}
+			fmt.Fprintf(b, "%sfor %s{\n", ind, hdr)
+			p.stmtsSrc(b, vars, s.Then, ind+"\t")
 			fmt.Fprintf(b, "%s}\n", ind)
 		}
 	}
@@ -186,9 +424,49 @@ func (p *Program) stmtsSrc(b *strings.Builder, ss []Stmt, ind string) {
 // Source prints the program as Go source for bondgo.
 func (p *Program) Source() string {
 	var b strings.Builder
-	b.WriteString("package main\n\nimport \"bondgo\"\n\nfunc main() {\n")
+	b.WriteString("package main\n\nimport \"bondgo\"\n\n")
+	for _, f := range p.Funcs {
+		var ps []string
+		for i := 0; i < f.NParams; i++ {
+			ps = append(ps, f.Vars[i].Name+" "+p.typ())
+		}
+		fmt.Fprintf(&b, "func %s(%s) %s {\n", f.Name, strings.Join(ps, ", "), p.typ())
+		for _, v := range f.Vars[f.NParams:] {
+			fmt.Fprintf(&b, "\tvar %s %s\n", v.Name, p.typ())
+		}
+		p.stmtsSrc(&b, f.Vars, f.Body, "\t")
+		fmt.Fprintf(&b, "\treturn %s\n}\n\n", p.exprSrc(f.Vars, f.Ret))
+	}
+	for _, w := range p.Workers {
+		ps := []string{"cin chan " + p.typ(), "cout chan " + p.typ()}
+		for i := 1; i <= w.NVal; i++ {
+			ps = append(ps, w.Vars[i].Name+" "+p.typ())
+		}
+		fmt.Fprintf(&b, "func %s(%s) {\n", w.Name, strings.Join(ps, ", "))
+		fmt.Fprintf(&b, "\tvar %s %s\n", w.Vars[0].Name, p.typ())
+		for _, v := range w.Vars[1+w.NVal:] {
+			fmt.Fprintf(&b, "\tvar %s %s\n", v.Name, p.typ())
+		}
+		fmt.Fprintf(&b, "\tfor {\n\t\t%s = <-cin\n", w.Vars[0].Name)
+		p.stmtsSrc(&b, w.Vars, w.Body, "\t\t")
+		fmt.Fprintf(&b, "\t\tcout <- %s\n\t}\n}\n\n", p.exprSrc(w.Vars, w.Out))
+	}
+	b.WriteString("func main() {\n")
 	for i := range p.Outputs {
 		fmt.Fprintf(&b, "\tvar out%d bondgo.Output\n", i)
+	}
+	var chdecl []string
+	for c, ch := range p.Chains {
+		for k := 0; k <= len(ch); k++ {
+			chdecl = append(chdecl, fmt.Sprintf("\tvar c%d_%d chan %s\n", c, k, p.typ()))
+		}
+	}
+	for i := range chdecl {
+		if p.ChanDeclRev {
+			b.WriteString(chdecl[len(chdecl)-1-i])
+		} else {
+			b.WriteString(chdecl[i])
+		}
 	}
 	for _, v := range p.Vars {
 		fmt.Fprintf(&b, "\tvar %s %s\n", v.Name, p.typ())
@@ -196,19 +474,38 @@ func (p *Program) Source() string {
 	for i, o := range p.Outputs {
 		fmt.Fprintf(&b, "\tout%d = bondgo.Make(bondgo.Output, %d)\n", i, o)
 	}
-	p.stmtsSrc(&b, p.Init, "\t")
+	for c, ch := range p.Chains {
+		for k, w := range ch {
+			args := []string{fmt.Sprintf("c%d_%d", c, k), fmt.Sprintf("c%d_%d", c, k+1)}
+			for _, v := range p.Workers[w].Vals {
+				args = append(args, fmt.Sprint(v))
+			}
+			fmt.Fprintf(&b, "\tgo %s(%s)\n", p.Workers[w].Name, strings.Join(args, ", "))
+		}
+	}
+	p.stmtsSrc(&b, p.Vars, p.Init, "\t")
 	b.WriteString("\tfor {\n")
-	p.stmtsSrc(&b, p.Loop, "\t\t")
+	p.stmtsSrc(&b, p.Vars, p.Loop, "\t\t")
 	b.WriteString("\t}\n}\n")
 	return b.String()
 }
 
+const (
+	sigNone = iota
+	sigBreak
+	sigContinue
+	sigStop // enough writes or out of steps
+)
+
 type evalState struct {
-	p     *Program
-	mask  uint64
-	vars  []uint64
-	out   [][2]uint64
-	steps int
+	frames   [][]uint64 // persistent variables of each worker
+	p        *Program
+	mask     uint64
+	vars     []uint64
+	out      [][2]uint64
+	n        int
+	steps    int
+	maxSteps int
 }
 
 func (s *evalState) expr(e *Expr) uint64 {
@@ -219,15 +516,27 @@ func (s *evalState) expr(e *Expr) uint64 {
 		return s.vars[e.Var]
 	case "add":
 		return (s.expr(e.L) + s.expr(e.R)) & s.mask
+	case "call":
+		f := &s.p.Funcs[e.Fn]
+		frame := make([]uint64, len(f.Vars))
+		for i, a := range e.Args {
+			frame[i] = s.expr(a)
+		}
+		saved := s.vars
+		s.vars = frame
+		s.run(f.Body)
+		v := s.expr(f.Ret)
+		s.vars = saved
+		return v
 	default:
 		return (s.expr(e.L) * s.expr(e.R)) & s.mask
 	}
 }
 
-func (s *evalState) run(ss []Stmt, n int) {
+func (s *evalState) run(ss []Stmt) int {
 	for _, st := range ss {
-		if len(s.out) >= n {
-			return
+		if len(s.out) >= s.n || s.steps >= s.maxSteps {
+			return sigStop
 		}
 		s.steps++
 		switch st.Kind {
@@ -238,38 +547,107 @@ func (s *evalState) run(ss []Stmt, n int) {
 		case "dec":
 			s.vars[st.Var] = (s.vars[st.Var] - 1) & s.mask
 		case "write":
-			s.out = append(s.out, [2]uint64{uint64(st.Out), s.expr(st.E)})
+			v := s.expr(st.E)
+			if s.steps >= s.maxSteps {
+				return sigStop // a callee may have been cut short: the value is not meaningful
+			}
+			s.out = append(s.out, [2]uint64{uint64(st.Out), v})
+		case "rpc":
+			v := s.expr(st.E)
+			saved := s.vars
+			for _, w := range s.p.Chains[st.Chain] {
+				wk := &s.p.Workers[w]
+				s.vars = s.frames[w]
+				s.vars[0] = v
+				if s.run(wk.Body) == sigStop {
+					s.vars = saved
+					return sigStop
+				}
+				v = s.expr(wk.Out)
+			}
+			s.vars = saved
+			s.vars[st.Var] = v
+		case "break":
+			return sigBreak
+		case "continue":
+			return sigContinue
+		case "chanblock":
+			if sig := s.run(st.Then); sig != sigNone {
+				return sig
+			}
 		case "shadow":
 			outer := s.vars[st.Var]
 			s.vars[st.Var] = 0 // the inner variable starts at its zero value
-			s.run(st.Then, n)
+			sig := s.run(st.Then)
 			s.vars[st.Var] = outer
+			if sig != sigNone {
+				return sig
+			}
 		case "if":
+			var sig int
 			if s.expr(st.A) == s.expr(st.B) {
-				s.run(st.Then, n)
+				sig = s.run(st.Then)
 			} else {
-				s.run(st.Else, n)
+				sig = s.run(st.Else)
+			}
+			if sig != sigNone {
+				return sig
+			}
+		case "for":
+			if st.E != nil {
+				s.vars[st.Var] = s.expr(st.E)
+			}
+			for {
+				if s.steps >= s.maxSteps {
+					return sigStop
+				}
+				s.steps++
+				if st.A != nil && s.expr(st.A) != s.expr(st.B) {
+					break
+				}
+				sig := s.run(st.Then)
+				if sig == sigStop {
+					return sigStop
+				}
+				if sig == sigBreak {
+					break
+				}
+				switch st.Post {
+				case "inc":
+					s.vars[st.Var] = (s.vars[st.Var] + 1) & s.mask
+				case "dec":
+					s.vars[st.Var] = (s.vars[st.Var] - 1) & s.mask
+				}
 			}
 		}
 	}
+	return sigNone
 }
 
 // Eval returns the first n (local output index, value) writes under Go
-// semantics with wrap-around at the register size (the second result is
-// always true; which executor can run the emitted machine is the harness's
-// business: see RegsOnly and UsesEq).
+// semantics with wrap-around at the register size. The second result tells
+// whether n writes were reached within maxSteps executed statements (a
+// program may legitimately spin in an inner loop for ever; then the writes
+// so far are returned).
 func (p *Program) Eval(n int, maxSteps int) ([][2]uint64, bool) {
-	s := &evalState{p: p, vars: make([]uint64, len(p.Vars))}
+	s := &evalState{p: p, vars: make([]uint64, len(p.Vars)), n: n, maxSteps: maxSteps}
 	if p.Rsize == 64 {
 		s.mask = ^uint64(0)
 	} else {
 		s.mask = (uint64(1) << p.Rsize) - 1
 	}
-	s.run(p.Init, n)
-	for len(s.out) < n && s.steps < maxSteps {
-		s.run(p.Loop, n)
+	for _, w := range p.Workers {
+		f := make([]uint64, len(w.Vars))
+		for i, v := range w.Vals {
+			f[1+i] = v & s.mask
+		}
+		s.frames = append(s.frames, f)
 	}
-	return s.out, true
+	s.run(p.Init)
+	for len(s.out) < n && s.steps < maxSteps {
+		s.run(p.Loop)
+	}
+	return s.out, len(s.out) >= n
 }
 
 // RegsOnly reports whether every variable is a register variable (memory
@@ -280,5 +658,41 @@ func (p *Program) RegsOnly() bool {
 			return false
 		}
 	}
+	for _, f := range p.Funcs {
+		for _, v := range f.Vars {
+			if !v.Reg {
+				return false
+			}
+		}
+	}
+	for _, f := range p.Workers {
+		for _, v := range f.Vars {
+			if !v.Reg {
+				return false
+			}
+		}
+	}
 	return true
+}
+
+// Features names the constructs the program uses beyond straight-line code.
+func (p *Program) Features() []string {
+	var f []string
+	add := func(b bool, s string) {
+		if b {
+			f = append(f, s)
+		}
+	}
+	add(p.UsesEq, "eq")
+	add(p.HasFor, "for")
+	add(p.HasBreak, "break")
+	add(p.HasContinue, "continue")
+	add(p.HasCall, "call")
+	add(p.HasShadow, "shadow")
+	add(p.HasGo, "goroutines")
+	add(p.HasGoValArgs, "goroutine-value-args")
+	add(p.HasChanBlock, "block-scoped-channel")
+	add(p.ChanDeclRev, "channels-declared-in-another-order-than-passed")
+	add(!p.RegsOnly(), "memvars")
+	return f
 }
